@@ -364,7 +364,7 @@ def main(chk: Check) -> None:
     quick = chk.tier == 'quick'
     rnd = random.Random(chk.seed)
     n_mc = 3 if quick else 4
-    n_short = 80 if quick else 10 ** 9
+    n_short = 80 if quick else 3600      # thorough: a covering sample of the ~5300 three-event histories (time budget)
     n_long = 14 if quick else 300
     long_len = 6 if quick else 7
     chk.rule = ('every complete history of 3 events over the replay alphabet exported by TLC (quick: seeded sample) plus '
@@ -407,15 +407,17 @@ def main(chk: Check) -> None:
     chk.extra['histories_replayed'] = len(done)
     chk.extra['longer_histories'] = len(longer)
     chk.extra['commands_run'] = sum(1 for c in done for e in c['ev'] if e['a'] != 'Edit')
-    chk.exhaustive = not quick
+    chk.exhaustive = (not quick) and chk.extra['histories_len3_total'] <= n_short
     chk.assumptions += [
         'one project shape: top-level combo option popt (choices edited), string option xopt (added/removed), boolean option '
         'flag (never changed), integer option level (min/max edited: raise min, lower max, both), array option arr (given '
         'empty with -Darr=; xopt is also given empty, sub:flag also given false), subproject options popt '
         'and flag with yield:true, builtin default_library with a sub:default_library override',
         'the recorded command line is observed as the [options] section of meson-private/cmd_line.txt (the file --wipe replays)',
-        'a -D value is generated only when it is valid both for the stored and for the edited option file (meson applies -D '
-        'of --reconfigure before it re-reads the option file); --wipe only when the recorded command line still fits the option file',
+        'a -D of `setup --reconfigure` is generated only when it is valid both for the stored and for the edited option file '
+        '(meson applies it before it re-reads the option file); --wipe only when the recorded command line still fits the option file',
+        'a -D of `meson configure` is valid when it fits the edited option file (configure re-reads it first); the thorough tier '
+        'replays a seeded covering sample of 3600 of the three-event histories when there are more',
         '-U is generated for sub:popt, sub:flag and for an existing sub:default_library override only (-U of a missing override is an error)',
         'a `configure` that changes no value may leave an edited option file unprocessed (both outcomes allowed)',
         'effective subproject values are read from coredata.dat with the tree\'s own loader (introspection shows stored values '
